@@ -44,7 +44,10 @@ RULE_ADDED = (
               'Round 11: images addressed by bare relative names that read like data (64 hex di'
               'gits, 0x..., numbers, true, None). '
               ' '
-              "Round 12: images given through a symbolic-linked directory followed by '..'. ")
+              "Round 12: images given through a symbolic-linked directory followed by '..'. "
+              ' '
+              'Round 13: images given under a name that is a symbolic or hard link to another i'
+              'mage of the same run. ')
 RULE = RULE + " " + RULE_ADDED.strip()
 ASSUMPTIONS = [
     "own Intel-HEX writer (pv/gen/ihex.py); areas do not overlap",
@@ -246,7 +249,25 @@ def run_case_(acc, cseed, tmpdir, state):
             p = os.path.join(tmpdir, "app%d.hex" % i)
         acc.count("naming_" + naming)
         shuffled = rng.random() < 0.6
-        ihex.write(rng, areas, p, shuffle=shuffled)
+        linked = None
+        if naming == "distinct" and i > 0 and rng.random() < 0.3:
+            # this image's name is a link (symbolic or hard) to an image given before - as
+            # release directories have them (signer.hex -> signer-5.4.hex): it is an image
+            # given like any other, it gets its hash, its message and its .sig
+            j_ = rng.randrange(len(images))
+            areas = images[j_][1]
+            linked = rng.choice(["symbolic", "symbolic", "hard"])
+            if os.path.lexists(p):
+                os.unlink(p)
+            if linked == "symbolic":
+                os.symlink(rng.choice([images[j_][0], os.path.basename(images[j_][0])]), p)
+            else:
+                os.link(images[j_][0], p)
+            acc.count("images_given_under_a_name_that_is_a_%s_link_to_another" % linked)
+        else:
+            if os.path.islink(p):
+                os.unlink(p)
+            ihex.write(rng, areas, p, shuffle=shuffled)
         p2 = os.path.join(tmpdir, "compact-app%d.hex" % i)
         ihex.write_compact(rng, areas, p2)
         want = ihex.expected_hash(areas)
